@@ -2,6 +2,7 @@ package fw
 
 import (
 	"fmt"
+	"path/filepath"
 	"sort"
 	"strings"
 	"time"
@@ -98,7 +99,7 @@ func c13Atoms() map[string][]vexpr {
 	for _, x := range []string{"1", "@V1", "@C1", "@VS.A", "@PS.A", "@Arr[1]", "@Sl[0]", `@M["a"]`, "@VS.In.X", "@IfaceV.(int)", "*@PI", "@SS[1].A", "(@V1)", "0x10", "int('c' - 'a')", "len(\"abc\")"} {
 		e := vexpr{Expr: x, Kind: "atom"}
 		if strings.HasPrefix(x, "len(") {
-			e.Class, e.Why = "noclaim", "builtin call on a constant"
+			e.Kind = "builtin-constant"
 		}
 		add("int", e)
 	}
@@ -108,8 +109,19 @@ func c13Atoms() map[string][]vexpr {
 		{"@FT(@F)()", "call of a converted function"}} {
 		add("int", vexpr{Expr: x.e, Class: "reject", Why: x.why, Kind: "call-atom"})
 	}
-	add("int", vexpr{Expr: "len(@Sl)", Class: "noclaim", Why: "builtin call", Kind: "builtin"})
-	add("int", vexpr{Expr: "cap(@Sl)", Class: "noclaim", Why: "builtin call", Kind: "builtin"})
+	// builtin calls that execute at initialisation are calls; those folded to constants are not
+	add("int", vexpr{Expr: "len(@Sl)", Class: "reject", Why: "non-constant builtin call", Kind: "builtin-call"})
+	add("int", vexpr{Expr: "cap(@Sl)", Class: "reject", Why: "non-constant builtin call", Kind: "builtin-call"})
+	add("int", vexpr{Expr: "len(@M)", Class: "reject", Why: "non-constant builtin call", Kind: "builtin-call"})
+	add("int", vexpr{Expr: "copy(@Sl, @Sl)", Class: "reject", Why: "non-constant builtin call", Kind: "builtin-call"})
+	add("int", vexpr{Expr: "min(@V1, 2)", Class: "reject", Why: "non-constant builtin call", Kind: "builtin-call"})
+	add("*int", vexpr{Expr: "new(int)", Class: "reject", Why: "non-constant builtin call", Kind: "builtin-call"})
+	add("[]int", vexpr{Expr: "append(@Sl, 1)", Class: "reject", Why: "non-constant builtin call", Kind: "builtin-call"})
+	add("[]int", vexpr{Expr: "make([]int, 2)", Class: "reject", Why: "non-constant builtin call", Kind: "builtin-call"})
+	add("float64", vexpr{Expr: "real(complex(@Vf, 1))", Class: "reject", Why: "non-constant builtin call", Kind: "builtin-call"})
+	add("int", vexpr{Expr: "len(@Arr)", Kind: "builtin-constant"})
+	add("int", vexpr{Expr: "len(@CS)", Kind: "builtin-constant"})
+	add("int", vexpr{Expr: "min(@C1, 2)", Kind: "builtin-constant"})
 	for _, x := range []string{`"s"`, "@Vs", "@CS", "@VS.B", "`raw`", `"a" + "b"`, "@Vs[1:]", `string(@Str("x"))`} {
 		add("string", vexpr{Expr: x, Kind: "atom"})
 	}
@@ -504,6 +516,7 @@ func CheckC13(e *Env) int {
 	t0 := time.Now()
 	rep := NewReport(e, "C13", "exploration", "typed grammar enumeration (atoms over every operand kind, then unary/binary/conversion/composite/index/slice/selector/deref/address-of/type-assert wrappers to depth 2-3) each placed in the injector's package and in another package's set; oracle from the generator's own expression tree: expressions containing a call of a function, method, function-typed variable/field (named function types included), function literal call or a channel receive, wire.Value of interface type, InterfaceValue that does not implement, or unexported/non-package-scope identifiers seen from another package must be rejected; all others must be accepted and at run time be reflect.DeepEqual to the same expression evaluated in its home package, deliver the very address for &pkgVar forms, and the same pointer across calls and across injectors sharing the set; distinct = (production, operand kind, placement, class)")
 	runValueCases(e, rep, c13Exprs(e), "c13")
+	judgeHazards(e, rep)
 	tp, tkeys, tpairs := c13TwinProgram("vtwin")
 	tres := RunPool(e, []*Program{tp}, PoolOpts{Execute: true, Name: "c13tw", BatchSize: 1})
 	judgeTwin(rep, tres[0], tkeys, tpairs)
@@ -794,4 +807,118 @@ func c13RelocationExprs() []vexpr {
 		}
 	}
 	return out
+}
+
+// c13Hazard: a value (or provider) written in another package that the injector's package
+// cannot reproduce faithfully although every identifier in it is exported: it mentions an
+// INTERNAL package the injector's package may not import, or a predeclared identifier that the
+// injector's package re-declares. wire must refuse it, or else the generated package must
+// compile and deliver exactly the home value.
+type c13Hazard struct {
+	Name      string
+	P         *Program
+	MustAllow bool // a control: must be accepted and equal
+}
+
+func c13Hazards() []c13Hazard {
+	var out []c13Hazard
+	mk := func(name string, mustAllow bool, libImports, libDecls, valueExpr, typ, appDecls string, extraPkgs map[string]string, libDir string) {
+		id := "vh_" + name
+		p := &Program{ID: id, Module: ModulePath, Extra: map[string]string{}, Feat: map[string]string{"family": "value-hazard", "case": name}, RawDriver: true}
+		p.Pkgs = []*Pkg{{Name: "app", Dir: "app"}, {Name: "lib", Dir: libDir}}
+		for dir, src := range extraPkgs {
+			p.Pkgs = append(p.Pkgs, &Pkg{Name: filepath.Base(dir), Dir: dir})
+			p.Extra[fmt.Sprintf("%d/pkg.go", len(p.Pkgs)-1)] = src
+		}
+		lib := "package lib\n\nimport (\n\t\"github.com/google/wire\"\n\t\"" + ModulePath + "/tr\"\n" + strings.ReplaceAll(libImports, "%ID%", ModulePath+"/"+id) + ")\n\nvar _ = tr.New\n\n" + libDecls +
+			"\nvar Set = wire.NewSet(wire.Value(" + valueExpr + "))\n\nvar _ = tr.Home(\"hz\", " + valueExpr + ")\n"
+		p.Extra["1/lib.go"] = lib
+		p.Extra["0/wire.go"] = "//go:build wireinject\n// +build wireinject\n\npackage app\n\nimport (\n\t\"github.com/google/wire\"\n\tlib \"" + p.ImportPath(1) + "\"\n)\n\nfunc Init() " + typ + " {\n\tpanic(wire.Build(lib.Set))\n}\n"
+		p.Extra["0/decl.go"] = "package app\n\n" + appDecls + "\n"
+		p.Extra["0/zz_driver.go"] = "//go:build !wireinject\n// +build !wireinject\n\npackage app\n\nimport (\n\t\"" + ModulePath + "/tr\"\n\t_ \"" + p.ImportPath(1) + "\"\n)\n\nfunc Scenarios() {\n\ttr.Injector(\"" + id + "\", \"Init\", nil, func(c_ *tr.Call) {\n\t\tres_ := Init()\n\t\ttr.SameAsHome(\"hz\", res_)\n\t})\n}\n"
+		p.Note = "value-hazard:" + name
+		out = append(out, c13Hazard{Name: name, P: p, MustAllow: mustAllow})
+	}
+	cfgSrc := "package cfg\n\nconst Port = 8080\n\nvar Name = \"cfg\"\n"
+	// internal package mentioned by a value expression of a neighbouring package
+	mk("internal-package-const", false, "\t\"%ID%/lib/internal/cfg\"\n", "type Port int\n", "Port(cfg.Port)", "lib.Port", "", map[string]string{"lib/internal/cfg": cfgSrc}, "lib")
+	mk("internal-package-var", false, "\t\"%ID%/lib/internal/cfg\"\n", "", "[]string{cfg.Name}", "[]string", "", map[string]string{"lib/internal/cfg": cfgSrc}, "lib")
+	// the same with an importable package: must work
+	mk("sibling-package-const", true, "\t\"%ID%/lib/cfg\"\n", "type Port int\n", "Port(cfg.Port)", "lib.Port", "", map[string]string{"lib/cfg": cfgSrc}, "lib")
+	// the injector's package lives INSIDE the tree of the internal directory: allowed
+	mk("internal-package-visible-to-injector", true, "\t\"%ID%/app/internal/cfg\"\n", "type Port int\n", "Port(cfg.Port)", "lib.Port", "", map[string]string{"app/internal/cfg": cfgSrc}, "app/sub/lib")
+	// predeclared identifiers the injector's package re-declares
+	mk("shadowed-true", false, "", "type Flag bool\n", "Flag(true)", "lib.Flag", "const true = false\n", nil, "lib")
+	mk("shadowed-nil-slice", false, "", "", "[]int(nil)", "[]int", "var nil = []int{1}\n", nil, "lib")
+	mk("shadowed-conversion-type", false, "", "var N = 65\n", "string(rune(N))", "string", "func rune(x int) int { return x + 1 }\n", nil, "lib")
+	mk("shadowed-iota-free-const", false, "", "", "int64(3)", "int64", "type int64 = int32\n", nil, "lib")
+	mk("not-shadowed-control", true, "", "type Flag bool\n", "Flag(true)", "lib.Flag", "const truth = false\n", nil, "lib")
+	return out
+}
+
+func judgeHazards(e *Env, rep *Report) {
+	hz := c13Hazards()
+	var progs []*Program
+	for _, h := range hz {
+		progs = append(progs, h.P)
+	}
+	res := RunPool(e, progs, PoolOpts{Execute: true, Name: "c13hz", BatchSize: 1})
+	for i, pr := range res {
+		h := hz[i]
+		violate := func(clause, witness string) {
+			files := pr.P.Files(false)
+			if pr.GenFile != "" {
+				files[pr.P.ID+"/app/wire_gen.go"] = pr.GenFile
+			}
+			rep.Violate(pr.P.ID, Issue{Prop: rep.Prop, Clause: clause, Witness: witness, Sig: rep.Prop + ":hazard:" + h.Name}, files, map[string]string{"wire_stderr.txt": pr.GenStderr})
+		}
+		if pr.PreBad != "" {
+			rep.Incon = append(rep.Incon, "harness: hazard "+h.Name+" does not type-check: "+firstLine(pr.PreBad)+" / "+secondLine(pr.PreBad))
+			continue
+		}
+		if pr.Incon != "" && !strings.Contains(pr.Incon, "driver") {
+			rep.Incon = append(rep.Incon, pr.P.ID+": "+pr.Incon)
+			continue
+		}
+		if pr.Crash != "" {
+			violate("crash", pr.Crash)
+			continue
+		}
+		accepted := pr.Outcome != nil && pr.Outcome.Wrote
+		if !accepted {
+			if h.MustAllow {
+				violate("a value every identifier of which the injector's package can reach was refused: "+h.Name, pr.GenStderr)
+				continue
+			}
+			if pr.Outcome == nil || len(pr.Outcome.Diags)+len(pr.LibDiags) == 0 {
+				violate("refused without a diagnostic", pr.GenStderr)
+				continue
+			}
+			rep.Held("hazard;" + h.Name + ";refused")
+			continue
+		}
+		if pr.BuildErr != "" || strings.Contains(pr.Incon, "go build failed") {
+			violate("accepted a value the injector's package cannot reproduce ("+h.Name+"): the generated package does not compile", pr.BuildErr+pr.Incon)
+			continue
+		}
+		ok, seen := true, false
+		for _, ct := range pr.Calls {
+			for _, ev := range ct.Events {
+				if ev.Ev == "home_cmp" {
+					seen = true
+					if (!ev.Known || !ev.DeepEqual) && ok {
+						ok = false
+						violate("accepted a value the injector's package cannot reproduce ("+h.Name+"): the injector returns "+ev.Dd.Canon()+", the written expression is "+ev.Home.Canon(), ct.Dump())
+					}
+				}
+			}
+		}
+		if !seen {
+			rep.Incon = append(rep.Incon, pr.P.ID+": no run-time observation ("+pr.Incon+")")
+			continue
+		}
+		if ok {
+			rep.Held("hazard;" + h.Name + ";accepted-equal")
+		}
+	}
 }
